@@ -32,7 +32,31 @@ class ValidationScenario(StateScenario):
                              virtual=False, p_dynamic=rng.choice([0.0, 0.2, 0.4]), p_empty_section=rng.choice([0.0, 0.3, 0.5]))
 
     def weights(self, rng):
-        return {"set": 3, "load_tree": 5, "loads": 3, "validate": 4, "insert_item": 3, "assign_sub": 1.5, "reset": 0.7, "flag": 1.5}
+        return {"set": 3, "load_tree": 5, "loads": 3, "validate": 4, "insert_item": 3, "assign_sub": 1.5, "reset": 0.7, "flag": 1.5,
+                "late_required": 0.35}
+
+    def start(self, header, world, rec):
+        import copy
+        header = dict(header, sd=copy.deepcopy(header["sd"]))      # the schema may grow during the run: the case keeps the original
+        return super().start(header, world, rec)
+
+    def gen_late_required(self, st, rng, cfg, tgts, cfgpaths, owners):
+        """The application declares one more required field on the root schema while a configuration already exists
+        (plug-ins do this): from then on that configuration lacks a required value until one is assigned."""
+        n = sum(1 for f in st.sd["root"]["fields"] if f["key"].startswith("late"))
+        if n >= 2:
+            return None
+        return {"op": "late_required", "key": "late%d" % n, "kind": rng.choice(["string", "int"])}
+
+    def do_late_required(self, st, cfg, c, op, rec):
+        if any(f["key"] == op["key"] for f in st.sd["root"]["fields"]):
+            rec.log("late_required", "skip")
+            return
+        node = {"kind": op["kind"], "key": op["key"], "o": {"required": True}}
+        st.sd["root"]["fields"].append(node)
+        st.B.root[op["key"]] = schema.make_field(st.B, st.sd, node, op["key"])
+        rec.log("late_required", op["key"], op["kind"])
+        rec.probe("required-field-declared-after-construction")
 
     def header(self, seed, avoid):
         h = super().header(seed, avoid)
@@ -73,6 +97,8 @@ class ValidationScenario(StateScenario):
                 v = getattr(cfgobj, f["key"])
             except AttributeError:
                 return False      # a declared field that cannot even be read (a changed tree may do that): nothing to audit
+            except KeyError:
+                v = None          # declared after this configuration was built: there is no value
             if schema.is_cfg_node(f):
                 if isinstance(v, Config):
                     ok = self.audit(st, v, schema.sub_schema_node(st.sd, f), p, out, validators) and ok
